@@ -44,6 +44,8 @@ type node struct {
 	digs  string // real: decimal digits, no sign, no dot
 	scale int    // real: how many of digs are fractional
 	s     []byte // string / name bytes
+	lit   []byte // string only: a ready-made literal spelling "(…)" to be written as is (raweol.go); nil = the policy spells s
+	alt   []byte // string with lit only: the value under the other reading of raw end-of-line bytes (raweol.go)
 	arr   []*node
 	dict  []entry // distinct keys, in writing order
 	num   int64   // ref
